@@ -70,10 +70,17 @@ def rule_pair(E, R):
         leaves = S.result_leaves()
         oks = [x for x in leaves if norm(x.node.get("callee", "")) == "core::result::Result::Ok" and started(x) is True]
         errs = [x for x in leaves if norm(x.node.get("callee", "")) == "core::result::Result::Err" and started(x) is True]
+        # the same outcome written as `result.map_err(|_| text)`: Ok(value) is kept as it is, Err(payload) is replaced
+        mapped = [x for x in leaves if started(x) is True and x.node.get("k") == "MethodCall" and x.node["m"] == "map_err" and
+                  norm(x.node.get("callee", "")) == "core::result::Result::map_err" and
+                  sem.passes_through(S, x.node["recv"], x.frame, cu[0].node) and
+                  sem.provenance(S, x.node["recv"], x.frame)[3] in ([], ["catch_unwind"])]
+        if mapped and not oks and not errs:
+            oks, errs = mapped, mapped
         after = all(sites.index(x) > sites.index(stops[0]) for x in oks + errs if x in sites)
         R.check(bool(oks) and bool(errs) and after, rule, CATCH, "the outcome of catch_unwind is inspected after the level was restored", where=h["span"])
-        good_ok = bool(oks) and all(sem.passes_through(S, x.node["args"][0], x.frame, cu[0].node) and
-                                    sem.admits(x.pc, pRes, None) in ({"Result::Ok"},) for x in oks)
+        good_ok = bool(oks) and (oks is mapped or all(sem.passes_through(S, x.node["args"][0], x.frame, cu[0].node) and
+                                                      sem.admits(x.pc, pRes, None) in ({"Result::Ok"},) for x in oks))
         R.check(good_ok, rule, CATCH, "f's value is returned unchanged", where=h["span"])
         good_err = bool(errs) and all(any(norm(c.get("callee", "")) == P + "panic_catcher_get_backtrace" for c in exprs(x.node, "Call")) for x in errs)
         R.check(good_err, rule, CATCH, "a caught panic yields the text recorded by the hook", where=h["span"])
@@ -90,7 +97,7 @@ def rule_pair(E, R):
     hs = E.hir(START)
     if not hs:
         return R.cannot(rule, START, "anchor not found")
-    Ss = sem.Sem(E, hs, inline=False)
+    Ss = sem.Sem(E, hs)
     is_en = lambda n: bool(_tls_with(n, "PANIC_CATCHER_ENABLED"))
     enabled = lambda x: _call_lit(x.pc, is_en)
     incs = [x for x in Ss.sites() if x.node.get("k") == "MethodCall" and x.node in _tls_with(x.node, "PANIC_CATCHER_LEVEL")]
@@ -112,6 +119,30 @@ def rule_pair(E, R):
             "start_catching() incremented it", hp["span"])
 
 
+def _level_writes(E, fn, key="PANIC_CATCHER_LEVEL"):
+    """descriptions of the writes to the thread-local cell that running `fn` performs itself or through private helpers
+    of the same file (a closure handed to such a helper is read where it is called)"""
+    h = E.hir(fn)
+    if not h:
+        return None
+    S = sem.Sem(E, h)
+    out = []
+    for x in S.sites():
+        c = x.node
+        if c.get("k") != "MethodCall" or c not in _tls_with(c, key):
+            continue
+        if c["m"] in ("set", "replace", "take"):
+            out.append(c["m"])
+            continue
+        clo = _closure_in(c)
+        if not clo:
+            continue
+        for wx in S.sites():
+            if wx.frame is x.frame and sem.within(wx, clo) and wx.node in _cell_writes(clo):
+                out.append(_write_desc(clo, wx.node, S, wx.frame))
+    return out
+
+
 def rule_level(E, R):
     rule = "R19-level"
     writers = {"LEVEL": {}, "ENABLED": {}}
@@ -127,9 +158,33 @@ def rule_level(E, R):
                 elif clo:
                     for w in _cell_writes(clo):
                         writers[key].setdefault(fn, []).append(_write_desc(clo, w))
+    # who writes: start and stop, or a private helper that only they call
+    callers = callers_by_name(E)
+    owners = {}
+    for fn in writers["LEVEL"]:
+        base = re.sub(r"(::\{closure#\d+\})+$", "", fn)
+        seen, todo = set(), [base]
+        roots = set()
+        while todo:
+            f = todo.pop()
+            if f in seen:
+                continue
+            seen.add(f)
+            if f in (START, STOP):
+                roots.add(f)
+                continue
+            it = E.item(f)
+            cs = {c for c in callers.get(f, ()) if "::tests::" not in c}
+            if not cs or it is None or it.get("vis") == "Public":
+                roots.add(f)
+            todo += list(cs)
+        owners[fn] = roots
+    who_ok = bool(owners) and all(r <= {START, STOP} for r in owners.values())
+    what = {START: _level_writes(E, START), STOP: _level_writes(E, STOP)}
     want_level = {START: ["checked_add(1)|abort"], STOP: ["checked_sub(1)|abort"]}
-    R.check(writers["LEVEL"] == want_level, rule, "panic::PANIC_CATCHER_LEVEL",
-            "level written only by start (+1) and stop (-1), aborting on overflow/underflow", str(writers["LEVEL"]))
+    R.check(who_ok and what == want_level, rule, "panic::PANIC_CATCHER_LEVEL",
+            "level written only by start (+1) and stop (-1), aborting on overflow/underflow",
+            "writers %s reached from %s; start/stop perform %s" % (writers["LEVEL"], {k: sorted(v) for k, v in owners.items()}, what))
     want_en = {P + "panic_catcher_enable": ["set(True)"], P + "panic_catcher_disable": ["set(False)"]}
     R.check(writers["ENABLED"] == want_en, rule, "panic::PANIC_CATCHER_ENABLED", "enabled flag written only by enable/disable", str(writers["ENABLED"]))
 
@@ -142,7 +197,7 @@ def _closure_in(call):
     return None
 
 
-def _write_desc(clo, w):
+def _write_desc(clo, w, S=None, frame=None):
     """describe a Cell write inside a `with` closure: checked_add(1)|abort / set(lit)"""
     a0 = w["args"][0] if w.get("args") else {}
     v = lit_value(a0)
@@ -156,6 +211,14 @@ def _write_desc(clo, w):
             plain = [b for b in binops(st["init"]) if b in ("Add", "Sub")]
             els = st.get("els")
             ab = bool(els) and any(norm(c.get("callee", "")) == "std::process::abort" for c in exprs(els, "Call"))
+            if not cs and S is not None:
+                # `update(b.get())` with `update` a closure the caller handed in: the arithmetic is in that closure
+                for c in exprs(st["init"], "Call"):
+                    b_ = S.lookup(sem.peel(c["f"]), frame) if "f" in c else None
+                    cl_ = closure_of(b_.expr) if b_ is not None and b_.kind == "arg" and b_.expr is not None else None
+                    if cl_:
+                        cs = [m for m in exprs(cl_["body"], "MethodCall") if m["m"] in ("checked_add", "checked_sub", "wrapping_add", "wrapping_sub", "saturating_add", "saturating_sub")]
+                        plain = plain or [b2 for b2 in binops(cl_["body"]) if b2 in ("Add", "Sub")]
             if cs:
                 return "%s(%s)|%s" % (cs[0]["m"], lit_value(cs[0]["args"][0]), "abort" if ab else "no-abort")
             if plain:
@@ -214,8 +277,22 @@ def rule_hook(E, R):
     sites = [x for x in S.sites() if sem.within(x, clo)]
     own = [x for x in S.sites() if x.node is clo]
     base = len(own[0].pc) if own else 0
+    # decision table of the hook: (this thread's level test, fallback mode) -> what runs. Read from the path conditions,
+    # whether the hook is written as if/return + match, as one match over the pair, or through bound locals.
     is_level = lambda n: bool(_tls_with(n, "PANIC_CATCHER_LEVEL"))
-    catching = lambda x: _call_lit(x.pc, is_level)
+    p_level = lambda v: is_level(S.resolve(v.node, v.frame).node)
+    is_mode = lambda v: bool(_tls_with(S.resolve(v.node, v.frame).node, "PANIC_CATCHER_FALLBACK_MODE"))
+    UM = sem.enum_universe(E, "panic::PanicCatcherFallbackMode")
+    table = lambda x: sem.admitted_tuples(x.pc[base:], [p_level, is_mode], [sem.BOOLS, UM])
+    ALL_ON = {("lit:True", m) for m in UM}
+
+    def catching(x):
+        t = table(x)
+        if t and all(a_ == "lit:True" for a_, _ in t):
+            return True
+        if t and all(a_ == "lit:False" for a_, _ in t):
+            return False
+        return None
     # the level test itself: `level > 0` inside the thread-local accessor
     lvs = [x for x in sites if x.node.get("k") == "MethodCall" and x.node in _tls_with(x.node, "PANIC_CATCHER_LEVEL")]
     good = False
@@ -237,11 +314,15 @@ def rule_hook(E, R):
         # the level alone decides: no other condition on the way to the recording
         others = []
         for f_, pol in x.pc[base:]:
-            for a_, p_ in sem.literals(((f_, pol),))[0]:
-                if a_.kind == "call" and a_.node is not None and is_level(strip(a_.node)):
+            lits_, ors_ = sem.literals(((f_, pol),))
+            for a_, p_ in lits_ + [l_ for o_ in ors_ for l_ in o_ if isinstance(l_[0], sem.Atom)]:
+                if a_.kind in ("call", "local") and a_.node is not None and p_level(sem.Val(a_.node, a_.frame)):
+                    continue
+                if a_.kind == "is" and all(p_level(v_) or is_mode(v_) for v_ in a_.scruts):
                     continue
                 others.append(a_)
-            others += sem.literals(((f_, pol),))[1]
+            others += [o_ for o_ in ors_ if not all(isinstance(l_[0], sem.Atom) for l_ in o_)]
+        others = others or ([] if table(x) == ALL_ON else ["the fallback mode"])
         R.check(not others, rule, fn, "recording depends on the catch level only",
                 "the recording is reached under further conditions: a panic raised while the level is > 0 (e.g. after disable() inside the "
                 "closure) would not be recorded and catch_panic would return a stale or placeholder message", x.node.get("sp", ""))
@@ -257,16 +338,15 @@ def rule_hook(E, R):
                 "while catching, the message is recorded into the thread's buffer and the hook returns", where=x.node.get("sp", ""))
         rec_if = {"then": clo["body"]}
     # outside catch_panic the fallback mode decides
-    is_mode = lambda v: bool(_tls_with(S.resolve(v.node, v.frame).node, "PANIC_CATCHER_FALLBACK_MODE"))
     prev = [y for y in sites if y.node.get("k") == "Call" and local_name(y.node.get("f", {})) == next_name and next_name]
     aborts = [y for y in sites if y.node.get("k") == "Call" and norm(y.node.get("callee", "")) == "std::process::abort"]
     if not prev and not aborts:
         R.violation(rule, fn, "outside catch_panic the fallback mode decides", "neither the previous hook nor abort is reached", clo["sp"])
     else:
-        ok = len(prev) == 1 and catching(prev[0]) is False and sem.nested_variants(prev[0].pc, is_mode, "PanicCatcherFallbackMode") == {"Continue"} and \
+        ok = len(prev) == 1 and {(a_, last_seg(m_)) for a_, m_ in table(prev[0])} == {("lit:False", "Continue")} and \
             [local_name(a_) for a_ in prev[0].node["args"]] == closure_param_names(clo, 0)[:1]
         R.check(ok, rule, fn, "Continue: the previously installed hook is called with the panic info", where=clo["sp"])
-        ok = len(aborts) >= 1 and all(catching(y) is False and sem.nested_variants(y.pc, is_mode, "PanicCatcherFallbackMode") == {"Abort"} for y in aborts)
+        ok = len(aborts) >= 1 and all({(a_, last_seg(m_)) for a_, m_ in table(y)} == {("lit:False", "Abort")} for y in aborts)
         R.check(ok, rule, fn, "Abort: the process aborts", where=clo["sp"])
     # the message is part of the recorded text
     hrs = {id(_recorder_of(E, c)): _recorder_of(E, c) for c in exprs(cb, "Call") if _recorder_of(E, c) is not None}
